@@ -70,7 +70,7 @@ impl SimWriter {
     super::clock::install(1_000_000);
     super::net::install();
     let q = qos(true, history, transient_local);
-    let wguid = guid(1, writer_eid(1));
+    let wguid = super::sim_reader::wguid(0);
     let mut kit = mk_writer(wguid, "simw_t", &q, queue);
     kit.writer.data_max_size_serialized = frag_size;
     let rk = mk_receiver(wguid.prefix);
@@ -107,6 +107,25 @@ impl SimWriter {
     let mut rp = RtpsReaderProxy::new(rguid(r), q.clone(), false);
     rp.unicast_locator_list = vec![loc(rport(r))];
     self.kit.writer.update_reader_proxy(&rp, &q);
+  }
+  /// match an arbitrary (real) reader by GUID, reachable at `port`
+  pub fn match_reader_guid(&mut self, g: GUID, port: u16, reliable: bool) {
+    let q = qos(reliable, 0, false);
+    let mut rp = RtpsReaderProxy::new(g, q.clone(), false);
+    rp.unicast_locator_list = vec![loc(port)];
+    self.kit.writer.update_reader_proxy(&rp, &q);
+  }
+  pub fn repair_enabled_guid(&self, g: GUID) -> (bool, bool) {
+    self.kit.writer.verif_repair_enabled().into_iter().find(|x| x.0 == g).map(|x| (x.1, x.2)).unwrap_or((false, false))
+  }
+  pub fn repair_guid(&mut self, g: GUID) {
+    self.kit.writer.verif_repair_data(g);
+  }
+  pub fn repair_frags_guid(&mut self, g: GUID) {
+    self.kit.writer.verif_repair_frags(g);
+  }
+  pub fn acked_before_guid(&self, g: GUID) -> Option<i64> {
+    self.kit.writer.verif_acked_before(g)
   }
   pub fn lose_reader(&mut self, r: u8) {
     self.kit.writer.reader_lost(rguid(r));
